@@ -1192,6 +1192,8 @@ class FuncRun:
 
     def call(s, I, env, mem):
         ex = s.ex; name = I.extra
+        if name in ('@__assert_fail', '@abort', '@llvm.ubsantrap', '@llvm.trap', '@__cxa_pure_virtual', '@_ZSt9terminatev'):
+            ex.obligations.append(('trap', ex.cur_cond, 'call ' + name + (' ' + str(I.args[0].val)[:80] if I.args and I.args[0].kind in ('cgep', 'global') else ''))); return None
         args = [ex.const(a, env, mem) for a in I.args]
         ex.stats['calls'] += 1
         if name in ex.mod.funcs:
